@@ -314,3 +314,20 @@ Proof.
   - intros j Hj. rewrite Hnth by exact Hj. apply deref_ext. intros r Hin.
     apply nth_app_old. apply (Hold j). exact Hin.
 Qed.
+
+(* ------------------------------------------------------------------ the worklist loop of Path.slice *)
+Lemma slice_loop_spec : forall (cond : Type) (vars : cond -> list Z) fuel conds d S sl seen work sl' d' S',
+  wf d S -> d_slice_loop cond vars fuel conds d S sl seen work = Some (sl', d', S') ->
+  dspec d S d' S' /\ slice_loop cond vars fuel conds (deref S d) sl seen work = Some (sl', deref S' d').
+Proof.
+  intros cond vars. induction fuel as [|f IH]; intros conds d S sl seen work sl' d' S' Hwf H; simpl in H; [discriminate|].
+  destruct work as [|var rest].
+  - inversion H; subst. split; [apply dspec_refl; exact Hwf | reflexivity].
+  - simpl. destruct (existsb (Z.eqb var) seen); [apply IH; assumption|].
+    destruct (d_touch d S var) as [d1 S1] eqn:Ht.
+    destruct (touch_spec _ _ _ _ _ Hwf Ht) as [Hs1 He1]. rewrite <- He1. rewrite get_deref.
+    destruct (slice_visit cond vars conds (d_get d1 S1 var) sl rest) as [[sl1 w1]|]; [|discriminate].
+    assert (Hwf1 : wf d1 S1) by apply Hs1.
+    destruct (IH _ _ _ _ _ _ _ _ _ Hwf1 H) as [Hs2 He2].
+    split; [eapply dspec_trans; eauto | exact He2].
+Qed.
